@@ -32,7 +32,8 @@ module Conc = struct
     List.init n (fun i -> match List.assoc_opt i nodes with Some nd -> nd | None -> KFile (z_of_int 0))
 
   let parse_call (s : string) : qcall =
-    match split_ws s with
+    (* "@<spelling>" tokens: how the path was spelled for the implementation; the machines take the clean path *)
+    match List.filter (fun t -> String.length t = 0 || t.[0] <> '@') (split_ws s) with
     | ["mkdir"; p] -> QMkdir (path_of_string p)
     | ["create"; p] -> QCreate (path_of_string p)
     | ["remove"; p] -> QRemove (path_of_string p)
